@@ -238,7 +238,12 @@ def _values(prog, number, nums):
         s = 0.0
         for name, x in nums:
             s += prog["weights"][name][k] * x
-        if prog["exact"]:
+        if prog.get("coarse"):
+            # C13 "discrete learning curves": small integers, pairwise distinct by a bijection of the trial number
+            # (n_trials <= 16), so that an interpolated percentile of the other trials often EQUALS a reported value
+            q = max(-1.0, min(1.0, math.floor(s)))
+            s = (16.0 * q + float((number * 5) % 16)) * (1.0 if k == 0 else -1.0)
+        elif prog["exact"]:
             q = math.floor(s * 64.0) / 64.0
             q = max(-48.0, min(48.0, q))
             s = q + (number + 1) / 4096.0 * (1.0 if k == 0 else -1.0)
